@@ -1,6 +1,7 @@
 package rules
 
 import (
+	"go/types"
 	"golang.org/x/tools/go/ssa"
 
 	"mastcheck/ir"
@@ -52,6 +53,26 @@ func (c *Ctx) attribute(fn *ssa.Function, props []string) []string {
 	}
 	if fn.Pkg != nil && fn.Pkg.Pkg.Path() != ir.MastPath {
 		return props // backend packages are reached through the Persist interface, not through static calls
+	}
+	// likewise a store or cache implemented in the root package (the in-memory store, a wrapper): its methods and
+	// constructors are reached through the interface, which static reachability from the API does not follow
+	if o := ir.Outermost(fn); o != nil {
+		if recv := o.Signature.Recv(); recv != nil {
+			t := recv.Type()
+			if pt, ok := t.(*types.Pointer); ok {
+				t = pt.Elem()
+			}
+			if named, ok := types.Unalias(t).(*types.Named); ok && implementsStorageIface(c.P, named) {
+				return props
+			}
+		} else {
+			res := o.Signature.Results()
+			for i := 0; i < res.Len(); i++ {
+				if n, ok := types.Unalias(res.At(i).Type()).(*types.Named); ok && (n.Obj().Name() == "Persist" || n.Obj().Name() == "NodeCache") {
+					return props // a constructor of a store / cache
+				}
+			}
+		}
 	}
 	var out []string
 	for _, p := range props {
